@@ -162,7 +162,13 @@ class Report(object):
         self.extra['known_findings_seen'] = dict(known_counts)
         missing = [c for c in self.required_classes if self.classes.get(c, 0) == 0]
         if missing:
-            self.harness_errors.append('generator never produced required classes: %s' % missing)
+            # a class the property names that the generator did not reach: a generator defect in the thorough tier;
+            # in the quick tier (30x fewer cases) only recorded, so that a statistical fluctuation is not an alarm
+            self.extra['required_classes_not_reached'] = missing
+            if self.tier == 'thorough':
+                self.harness_errors.append('generator never produced required classes: %s' % missing)
+            else:
+                print('NOTE property=%s classes not reached in this quick run: %s' % (self.pid, missing), file=sys.stderr)
         self.write_evidence(violations)
         for line in out_lines:
             print(line)
